@@ -4,11 +4,13 @@
 use std::io::{BufRead, Write};
 
 mod pure;
+mod mtu;
 mod util;
 mod wire;
 
 pub struct St {
     pub rtte: librqbit_utp::verif::RttEstimator,
+    pub mtu: librqbit_utp::mtu::SegmentSizes,
 }
 
 fn step(st: &mut St, line: &str) -> String {
@@ -17,6 +19,7 @@ fn step(st: &mut St, line: &str) -> String {
         Some((&"nop", _)) => "ok".into(),
         Some((&"seqnr", args)) => pure::step_seqnr(args),
         Some((&"wire", args)) => wire::step_wire(args),
+        Some((&"mtu", args)) => mtu::step_mtu(&mut st.mtu, args),
         Some((&"rtte", args)) => pure::step_rtte(&mut st.rtte, args),
         _ => "bad-op".into(),
     }
@@ -30,6 +33,7 @@ fn main() {
     let mut out = std::io::BufWriter::new(stdout.lock());
     let mut st = St {
         rtte: Default::default(),
+        mtu: librqbit_utp::mtu::SegmentSizes::new(Default::default()),
     };
     for line in stdin.lock().lines() {
         let line = line.unwrap();
